@@ -89,4 +89,183 @@ def target_find_target():
     return pyvc.collect(paths, "_find_target_of_reference"), sum(1 for p in paths if p.covered)
 
 
-TARGETS = {"_find_target_of_reference": target_find_target}
+def target_resolve_field_reference():
+    """symbol_resolver._resolve_field_reference (members after a dot; aliases followed to what they name), over a ghost IR:
+
+       head of the path: a runtime parameter | a physical field of structure type T0 | an array field | a computed virtual
+       field | an alias (virtual field whose definition is a field path) of one element, of two elements [via T1, then T0],
+       an alias of an alias, an alias that names an array, an alias that cannot be resolved;
+       one or two member references after the head; T0 has member mm (of type T2) - or not (symbolic); T2 has member nn - or
+       not; T1 (the type of the HEAD of the two-element alias path) also has members mm / nn, leading elsewhere.
+
+    Postcondition: each member is looked up in the type of the field the path so far designates - for an alias, the type of
+    the LAST element of its (already resolved) path: ref.canonical_name == type's canonical name + [member]; a missing
+    member -> one missing-name error at that member and nothing after it is bound; parameter / computed virtual field ->
+    one noncomposite error; array -> one array error; unresolvable alias -> silence (the alias's own error surfaces where
+    the alias is resolved); references are bound left to right and never rebound."""
+    sr = importlib.import_module(SR)
+    ir_util = importlib.import_module("compiler.util.ir_util")
+    ir_data_utils = importlib.import_module("compiler.util.ir_data_utils")
+    eng = pyvc.Engine()
+    eng.contract(sr.noncomposite_subfield_error, lambda interp, f, loc, name: ("NONCOMPOSITE", name), "noncomposite_subfield_error")
+    eng.contract(sr.array_subfield_error, lambda interp, f, loc, name: ("ARRAY", name), "array_subfield_error")
+    eng.contract(sr.missing_name_error, lambda interp, f, loc, name: ("MISSING", name, loc), "missing_name_error")
+    eng.identity(ir_data_utils.builder)
+    eng.contract(ir_data_utils.copy, lambda interp, cn: SRec("CanonicalName", {"module_file": cn.f["module_file"], "object_path": list(cn.f["object_path"])}), "ir_data_utils.copy")
+    eng.contract(ir_util.field_is_virtual, lambda interp, f: f.f["ghost_virtual"], "field_is_virtual")
+
+    def cname(*path):
+        return SRec("CanonicalName", {"module_file": "m.emb", "object_path": list(path)})
+
+    def word(text):
+        return SRec("Word", {"text": text, "source_location": ("LOC", text)})
+
+    def atomic_field(label, tname):
+        return SRec("Field", {"ghost_label": label, "ghost_virtual": False, "name": SRec("NameDefinition", {"canonical_name": cname("Foo", label)}),
+                              "type": SRec("Type", {"which_type": "atomic_type", "atomic_type": SRec("AtomicType", {"reference": SRec("Reference", {"canonical_name": cname(tname)})})})})
+
+    def array_field(label):
+        return SRec("Field", {"ghost_label": label, "ghost_virtual": False, "name": SRec("NameDefinition", {"canonical_name": cname("Foo", label)}), "type": SRec("Type", {"which_type": "array_type"})})
+
+    def ref(name, target=None, resolved=False):
+        r = SRec("Reference", {"source_name": [word(name)], "source_location": ("LOC", name), "ghost_target": target},
+                 defaults={"canonical_name": lambda rec: SRec("CanonicalName", {}), "has:canonical_name": False})
+        if resolved:
+            r.f["canonical_name"] = cname("resolved", name)
+        return r
+
+    def alias_field(label, path_refs, resolvable=True):
+        fr = SRec("FieldReference", {"path": list(path_refs), "ghost_resolvable": resolvable})
+        return SRec("Field", {"ghost_label": label, "ghost_virtual": True, "name": SRec("NameDefinition", {"canonical_name": cname("Foo", label)}),
+                              "read_transform": SRec("Expression", {"which_expression": "field_reference", "field_reference": fr})})
+
+    def harness(c):
+        head_kind = c.choice("head", ["parameter", "field", "array", "computed", "alias", "alias-dotted", "alias-of-alias", "alias-to-array", "alias-unresolvable"])
+        nmem = int(c.choice("members", ["1", "2"]))
+        p0, p2 = z3.Bool("T0_has_mm"), z3.Bool("T2_has_nn")
+        M0, M1, N2, N3 = atomic_field("M0", "T2"), atomic_field("M1", "T3"), atomic_field("N2", "T4"), atomic_field("N3", "T4")
+        members = {("T0", "mm"): (p0, M0), ("T1", "mm"): (True, M1), ("T2", "nn"): (p2, N2), ("T3", "nn"): (True, N3), ("T1", "nn"): (True, N3), ("T0", "nn"): (True, N3)}
+        F0, F1, ARR = atomic_field("f0", "T0"), atomic_field("f1", "T1"), array_field("arr")
+        if head_kind == "parameter":
+            head_obj = SRec("RuntimeParameter", {"ghost_label": "param", "ghost_virtual": False})
+        elif head_kind == "field":
+            head_obj = F0
+        elif head_kind == "array":
+            head_obj = ARR
+        elif head_kind == "computed":
+            head_obj = SRec("Field", {"ghost_label": "computed", "ghost_virtual": True, "read_transform": SRec("Expression", {"which_expression": "function"})})
+        elif head_kind == "alias":
+            head_obj = alias_field("al", [ref("f0", F0)])
+        elif head_kind == "alias-dotted":
+            head_obj = alias_field("al", [ref("f1", F1), ref("inner", F0)])          # head of the alias path has type T1, its last element type T0
+        elif head_kind == "alias-of-alias":
+            head_obj = alias_field("al2", [ref("al", alias_field("al", [ref("f1", F1), ref("inner", F0)]))])
+        elif head_kind == "alias-to-array":
+            head_obj = alias_field("al", [ref("f1", F1), ref("arr", ARR)])
+        else:
+            head_obj = alias_field("al", [ref("zz", None)], resolvable=False)
+        head_ref = ref("head", head_obj, resolved=True)
+        mrefs = [ref("mm"), ref("nn")][:nmem]
+        fr = SRec("FieldReference", {"path": [head_ref] + mrefs})
+
+        def find_object_or_none(interp, name, ir):
+            if name.typename == "Reference":
+                return name.f["ghost_target"]
+            key = tuple(name.f["object_path"])
+            if key not in members:
+                c.oblige("member-lookups-stay-inside-the-ghost-types", False, detail=repr(key))
+                return None
+            pres, obj = members[key]
+            if pres is True or interp.ctx.branch(pres):
+                return obj
+            return None
+        eng.contract(ir_util.find_object_or_none, find_object_or_none, "find_object_or_none")
+
+        def find_object(interp, name, ir):
+            t = name.f["ghost_target"]
+            c.oblige("find_object-only-on-resolved-references", t is not None and "canonical_name" in name.f, detail=repr(name.f.get("source_name")))
+            return t
+        eng.contract(ir_util.find_object, find_object, "find_object")
+        inner_calls = []
+
+        def ih(interp, field_reference, source_file_name, errors, ir):
+            inner_calls.append(field_reference)
+            if field_reference.f["ghost_resolvable"]:
+                for r in field_reference.f["path"]:
+                    r.f.setdefault("canonical_name", cname("resolved"))
+            else:
+                errors.append(("INNER-ERROR",))
+            return None
+        eng.contract(sr._resolve_field_reference, ih, "_resolve_field_reference (alias definitions: induction hypothesis)")
+        errors = []
+        c.covered = True
+        pyvc.run_body(c, SR + "._resolve_field_reference", [fr, "m.emb", errors, "IR"])
+        bound = [("canonical_name" in r.f) for r in mrefs]
+
+        def path_of(r):
+            return list(r.f["canonical_name"].f["object_path"]) if "canonical_name" in r.f else None
+        final_type = {"field": "T0", "alias": "T0", "alias-dotted": "T0", "alias-of-alias": "T0"}.get(head_kind)
+        if head_kind in ("parameter", "computed"):
+            c.oblige("scalar-head:one-noncomposite-error-nothing-bound", errors == [("NONCOMPOSITE", "head")] and not any(bound), detail=repr(errors))
+            return
+        if head_kind in ("array", "alias-to-array"):
+            c.oblige("array-head:one-array-error-nothing-bound", errors == [("ARRAY", "head")] and not any(bound), detail=repr(errors))
+            return
+        if head_kind == "alias-unresolvable":
+            c.oblige("unresolvable-alias:silent-nothing-bound", errors == [] and not any(bound), detail=repr(errors))
+            return
+        # the first member is looked up in T0 (for aliases: the type of the LAST element of the alias's path)
+        if bound[0]:
+            c.oblige("member-bound-in-the-type-of-the-designated-field", z3.And(p0, z3.BoolVal(path_of(mrefs[0]) == [final_type, "mm"])), detail=repr(path_of(mrefs[0])))
+        else:
+            c.oblige("missing-member:one-error-at-that-member-nothing-bound", z3.And(z3.Not(p0), z3.BoolVal(errors == [("MISSING", "mm", ("LOC", "mm"))] and not any(bound))), detail=repr(errors))
+            return
+        if nmem == 1:
+            c.oblige("no-error-when-every-member-exists", errors == [], detail=repr(errors))
+            return
+        if bound[1]:
+            c.oblige("second-member-bound-in-the-type-of-the-first", z3.And(p2, z3.BoolVal(path_of(mrefs[1]) == ["T2", "nn"] and errors == [])), detail=repr(path_of(mrefs[1])))
+        else:
+            c.oblige("missing-second-member:one-error-first-stays-bound", z3.And(z3.Not(p2), z3.BoolVal(errors == [("MISSING", "nn", ("LOC", "nn"))])), detail=repr(errors))
+    paths = eng.explore(harness)
+    return pyvc.collect(paths, "_resolve_field_reference"), sum(1 for p in paths if p.covered)
+
+
+def target_add_name_to_scope():
+    """symbol_resolver._add_name_to_scope: a name is entered into its scope table exactly once.  For a scope table that
+    does or does not already hold the name (symbolic): absent -> the new entry (canonical name, location, visibility as
+    given) is stored under the name, no error; present -> exactly one duplicate-name error that points at both
+    definitions, and the EXISTING entry stays (a duplicate never silently replaces the first definition).  Either way the
+    new scope object is returned and no other key of the table is written."""
+    sr = importlib.import_module(SR)
+    eng = pyvc.Engine()
+    eng.contract(sr.duplicate_name_error, lambda interp, f, loc, name, original: ("DUPLICATE", f, loc, name, original), "duplicate_name_error")
+    eng.contract(sr.FileLocation, lambda interp, f, loc: ("FILELOC", f, loc), "FileLocation")
+    eng.contract(sr._Scope, lambda interp, cn, loc, vis: GDict({}, {}, truthy=False, label="new-scope", attrs={"canonical_name": cn, "source_location": loc, "visibility": vis, "alias": None}), "_Scope(...)")
+
+    def harness(c):
+        vis = c.choice("visibility", ["LOCAL", "PRIVATE", "SEARCHABLE"])
+        present = z3.Bool("name_already_in_scope")
+        old = GDict({}, {}, truthy=False, label="first-definition", attrs={"canonical_name": SRec("CanonicalName", {"module_file": "first.emb"}), "source_location": ("LOC", "first"),
+                                                                          "visibility": sr._Scope.LOCAL, "alias": None})
+        other = GDict({}, {}, truthy=False, label="other-name", attrs={})
+        scope = GDict({"x": SBool(present), "y": True}, {"x": old, "y": other}, truthy=True, label="scope",
+                      attrs={"canonical_name": SRec("CanonicalName", {"module_file": "m.emb"}), "source_location": ("LOC", "scope"), "visibility": sr._Scope.SEARCHABLE, "alias": None})
+        name_ir = SRec("Word", {"text": "x", "source_location": ("LOC", "second")})
+        cn = SRec("CanonicalName", {"module_file": "m.emb", "object_path": ["x"]})
+        errors = []
+        c.covered = True
+        st, got = pyvc.run_body(c, SR + "._add_name_to_scope", [name_ir, scope, cn, getattr(sr._Scope, vis), errors])
+        ok_new = isinstance(got, GDict) and got.label == "new-scope" and got.attrs["canonical_name"] is cn and got.attrs["source_location"] == ("LOC", "second") and got.attrs["visibility"] is getattr(sr._Scope, vis)
+        c.oblige("returns-the-new-scope-with-the-given-name-location-visibility", ok_new, detail=repr(got))
+        c.oblige("frame:no-other-key-written", scope.entries["y"] is other and scope.present["y"] is True and set(scope.entries) == {"x", "y"})
+        if scope.entries["x"] is old:
+            c.oblige("duplicate:first-definition-kept-and-one-error-pointing-at-both", z3.And(present, z3.BoolVal(errors == [("DUPLICATE", "m.emb", ("LOC", "second"), "x", ("FILELOC", "first.emb", ("LOC", "first")))])),
+                     detail=repr(errors))
+        else:
+            c.oblige("fresh-name:stored-without-error", z3.And(z3.Not(present), z3.BoolVal(scope.entries["x"] is got and scope.present["x"] is True and errors == [])), detail=repr(errors))
+    paths = eng.explore(harness)
+    return pyvc.collect(paths, "_add_name_to_scope"), sum(1 for p in paths if p.covered)
+
+
+TARGETS = {"_find_target_of_reference": target_find_target, "_resolve_field_reference": target_resolve_field_reference, "_add_name_to_scope": target_add_name_to_scope}
